@@ -1200,6 +1200,30 @@ func parallelFirstRecords(rounds int) string {
 	return ""
 }
 
+// wideClose buffers n events that never complete in a window of max (timeout 1h) and closes: Close delivers every one of
+// them, once, in ascending order. Returns the first deviation ("" = none).
+func wideClose(max, n int) string {
+	st := &longStream{next: 1}
+	r, err := libaudit.NewReassembler(max, time.Hour, st)
+	if err != nil {
+		return ""
+	}
+	for i := 1; i <= n; i++ {
+		r.PushMessage(&auparse.AuditMessage{RecordType: tSYSCALL, Sequence: uint32(i)})
+	}
+	if st.next != 1 || st.bad != "" {
+		return fmt.Sprintf("before Close: %d events delivered although none was complete, none timed out and %d <= maxInFlight %d were buffered (%s)", st.next-1, n, max, st.bad)
+	}
+	r.Close()
+	if st.bad != "" {
+		return "Close: " + st.bad
+	}
+	if int(st.next-1) != n {
+		return fmt.Sprintf("%d events were buffered when Close was called; Close delivered %d of them, and a closed Reassembler delivers nothing later", n, st.next-1)
+	}
+	return ""
+}
+
 // wideWindow fills a window of max with n events that never complete (timeout 1h) and reports at which event the first
 // delivery before Close happened (0 = none).
 func wideWindow(max, n int) (evictedAt int) {
@@ -1430,6 +1454,10 @@ func reasmFamily(ctx *Ctx) error {
 			fmt.Printf("%d consecutive events through one Reassembler: %q (empty = every event delivered once, alone, in order, no loss reported)\n", rw.Input.Events, longLived(rw.Input.Events))
 			return nil
 		}
+		if json.Unmarshal(b, &rw) == nil && rw.Input.Kind == "wide-close" {
+			fmt.Printf("%d events that never complete in a window of %d, then Close: %q (empty = Close delivered them all, once, in order)\n", rw.Input.Events, rw.Input.Max, wideClose(rw.Input.Max, rw.Input.Events))
+			return nil
+		}
 		if json.Unmarshal(b, &rw) == nil && rw.Input.Kind == "wide-window" {
 			at := wideWindow(rw.Input.Max, rw.Input.Events)
 			fmt.Printf("maxInFlight %d, %d events pushed, none complete, timeout 1h: first delivery before Close when event number %d arrived (0 = none)\n", rw.Input.Max, rw.Input.Events, at)
@@ -1561,6 +1589,17 @@ func reasmFamily(ctx *Ctx) error {
 		res.Hist("long-lived object")
 		if bad != "" {
 			res.Violate(common.Violation{Kind: "monitor", Input: in, Clause: ctx.Prop + ": on one Reassembler fed consecutive events (seven or eight buffered, all evicted by one call): " + bad})
+		}
+	}
+	if (ctx.Prop == "C01" || ctx.Prop == "C19") && strconv.IntSize == 64 {
+		// Close with a backlog beyond 2^16 (filling it costs the library a few seconds: every new event re-sorts the list)
+		in := map[string]interface{}{"kind": "wide-close", "max_in_flight": 70000, "events": 1<<16 + 3}
+		guardEnter(in)
+		bad := wideClose(70000, 1<<16+3)
+		guardLeave()
+		res.Hist("wide close")
+		if bad != "" {
+			res.Violate(common.Violation{Kind: "monitor", Input: in, Clause: ctx.Prop + ": " + bad})
 		}
 	}
 	if ctx.Prop == "C10" && ctx.Thorough() {
